@@ -146,7 +146,7 @@ Ltac strip :=
 
 Theorem step_sext s e : keyed s -> sext s (step s e).
 Proof.
-  intros HK. destruct e as [k tmo| | | |how|r|o|o|o|dt|o|k tmo|o]; unfold step.
+  intros HK. destruct e as [k tmo| | | |how|r|o|o|o|dt|o|o|k tmo|o]; unfold step.
   - (* Start *) destruct (next_msgid (last s) (inuse s)); try apply sext_refl.
     destruct (is_running s); unfold sext; cbn; apply oext_app; (split; [constructor|exact I]).
   - (* DrvOp *) destruct (is_running s); cbn [negb]; [|apply sext_refl].
@@ -186,6 +186,7 @@ Proof.
     destruct (o_status c); try apply sext_refl; try destruct (fix20 (fx s)); destruct (is_running s); repeat strip.
   - (* Advance *) repeat strip.
   - (* ViaHandle *) repeat strip.
+  - (* DropCall *) destruct (getop s o) as [c|] eqn:Ec; [destruct (o_status c) eqn:Est|]; repeat strip.
   - (* Alloc *) unfold alloc. destruct (next_msgid (last s) (inuse s)); try apply sext_refl.
     unfold sext; cbn; apply oext_app; (split; [constructor|exact I]).
   - (* Enqueue *) unfold enqueue. destruct (getop s o) as [c|] eqn:Ec; [|apply sext_refl].
@@ -229,7 +230,7 @@ Ltac brk := repeat match goal with |- context [if ?b then _ else _] => destruct 
 Theorem step_keyed s e : keyed s -> keyed (step s e).
 Proof.
   intros HK. pose proof (step_sext s e HK) as HS.
-  destruct e as [k tmo| | | |how|r|o|o|o|dt|o|k tmo|o]; apply (keyed_gen s _ HK HS); intros p; unfold step.
+  destruct e as [k tmo| | | |how|r|o|o|o|dt|o|o|k tmo|o]; apply (keyed_gen s _ HK HS); intros p; unfold step.
   (* Start *)
   1, 2: destruct (next_msgid (last s) (inuse s)); [destruct (is_running s)| |]; intros H; now left.
   (* DrvOp *)
@@ -262,6 +263,8 @@ Proof.
   1, 2: now left.
   (* ViaHandle *)
   1, 2: now left.
+  (* DropCall *)
+  1, 2: destruct (getop s o) as [c|]; [destruct (o_status c)|]; now left.
   (* Alloc *)
   1, 2: unfold alloc; destruct (next_msgid (last s) (inuse s)); intros H; now left.
   (* Enqueue *)
